@@ -1049,6 +1049,8 @@ pub struct VirtualSrc {
     pub n_records: u64,
     pub pos: u64,
     pub seeks: u64,
+    /// FASTQ: this record has '-' instead of '+' as separator
+    pub defect_at: Option<u64>,
 }
 
 pub const VREC: u64 = 64;
@@ -1091,7 +1093,10 @@ impl std::io::Read for VirtualSrc {
         while n < buf.len() && self.pos < total {
             let k = self.pos / VREC;
             let off = (self.pos % VREC) as usize;
-            let rec = vrecord(self.fmt, k);
+            let mut rec = vrecord(self.fmt, k);
+            if self.defect_at == Some(k) {
+                rec[40] = b'-';
+            }
             let take = (64 - off).min(buf.len() - n);
             buf[n..n + take].copy_from_slice(&rec[off..off + take]);
             n += take;
@@ -1117,20 +1122,23 @@ impl std::io::Seek for VirtualSrc {
 pub fn huge_offsets_case(rng: &mut Rng, fmt: Fmt) -> Result<u64, String> {
     use seq_io::fasta::{self, Record as _};
     use seq_io::fastq::{self, Record as _};
-    let n_records: u64 = 1 << 27; // 8 GiB
+    let n_records: u64 = 1 << 32; // 256 GiB, more than 2^32 lines in both formats
     let cap = *rng.pick(&[64usize, 100, 1000, 4096, 65536]);
     let lines_per = match fmt {
         Fmt::Fasta => 2u64,
         Fmt::Fastq => 4,
     };
     let boundary = (1u64 << 32) / VREC;
+    // record whose header is the first one on a line >= 2^32
+    let line_boundary = (1u64 << 32) / lines_per;
     let mut targets: Vec<u64> = vec![];
     for _ in 0..6 {
-        targets.push(match rng.below(5) {
+        targets.push(match rng.below(7) {
             0 => boundary - 1 - rng.below(3) as u64,
             1 => boundary + rng.below(3) as u64,
             2 => (1u64 << 31) / VREC + rng.below(3) as u64 - 1,
             3 => rng.below(1000) as u64,
+            4 => line_boundary - 2 + rng.below(4) as u64,
             _ => rng.next() % (n_records - 10),
         });
     }
@@ -1139,6 +1147,7 @@ pub fn huge_offsets_case(rng: &mut Rng, fmt: Fmt) -> Result<u64, String> {
         n_records,
         pos: 0,
         seeks: 0,
+        defect_at: None,
     };
     let mut checked = 0u64;
     let id_of = |head: &[u8]| -> Option<u64> { std::str::from_utf8(head).ok()?.parse().ok() };
@@ -1230,4 +1239,48 @@ pub fn huge_offsets_case(rng: &mut Rng, fmt: Fmt) -> Result<u64, String> {
         }
     }
     Ok(checked)
+}
+
+/// C17 on the virtual file: a FASTQ record with a wrong separator at a line beyond 2^16 / 2^32;
+/// the reader is positioned shortly before it with seek(). Returns the error observed.
+pub fn huge_line_error_case(rng: &mut Rng) -> Result<(u64, crate::api::ErrFull), String> {
+    use seq_io::fastq;
+    let n_records: u64 = 1 << 31;
+    let defect = match rng.below(4) {
+        0 => (1u64 << 32) / 4 + rng.below(5) as u64,       // header line just beyond 2^32
+        1 => (1u64 << 16) / 4 + rng.below(5) as u64,       // ... beyond 2^16
+        2 => (1u64 << 31) / 4 + rng.below(5) as u64,
+        _ => 3 + rng.next() % (n_records - 10),
+    };
+    let cap = *rng.pick(&[64usize, 100, 1000, 65536]);
+    let src = VirtualSrc {
+        fmt: Fmt::Fastq,
+        n_records,
+        pos: 0,
+        seeks: 0,
+        defect_at: Some(defect),
+    };
+    let mut rd = fastq::Reader::with_capacity(src, cap);
+    let before = 1 + rng.below(3) as u64;
+    let k = defect - before;
+    rd.seek(&fastq::Position::new(k * 4 + 1, k * VREC)).map_err(|e| format!("seek failed: {}", e))?;
+    let via_set = rng.chance(1, 3);
+    if via_set {
+        let mut set = fastq::RecordSet::default();
+        loop {
+            match rd.read_record_set(&mut set) {
+                Some(Ok(())) => continue,
+                Some(Err(e)) => return Ok((defect, crate::api::fq_err(e))),
+                None => return Err("end of input before the defective record".into()),
+            }
+        }
+    }
+    for _ in 0..before + 1 {
+        match rd.next() {
+            Some(Ok(_)) => {}
+            Some(Err(e)) => return Ok((defect, crate::api::fq_err(e))),
+            None => return Err("end of input before the defective record".into()),
+        }
+    }
+    Err("the defective record was accepted".into())
 }
